@@ -1809,6 +1809,20 @@ func ruleX2(c *Ctx) {
 				if !ok || call.Call.StaticCallee() != inc {
 					return
 				}
+				// the obligation concerns functions that mean to balance the count themselves: from this
+				// call some call of the inverse is reachable inside the function. Iterate (which returns with
+				// the count raised, Done lowers it) and a scanner counting brackets across calls are not.
+				balances := deferred
+				eachInstr(fn, func(in2 ssa.Instruction) {
+					if ci, ok := in2.(ssa.CallInstruction); ok && ci.Common().StaticCallee() == dec {
+						if in2.Block() == call.Block() || reachable(call.Block(), in2.Block()) {
+							balances = true
+						}
+					}
+				})
+				if !balances {
+					return
+				}
 				n++
 				ord++
 				key := fmt.Sprintf("%s: %s #%d is matched by %s", fnName(fn), inc.Name(), ord, dec.Name())
@@ -1834,4 +1848,167 @@ func ruleX2(c *Ctx) {
 		}
 	}
 	c.note("%d calls of counting methods that have an inverse", n)
+}
+
+// ---------- L9: decoded positions keep their full width ----------
+
+func init() {
+	register("L9", "a decoded line-table row keeps line and column at full width: the element type of the table that (*Funcode).decodeLNT fills is a struct with separate 32-bit (or wider) integer fields for the line and the column besides the pc; packing both into one word ('20 bits of line, 12 of column, as cmd/compile does') clamps every position beyond column 4095, although a generated one-line program easily has columns above that", 1, ruleL9)
+	claim("C16", "L9")
+}
+
+func ruleL9(c *Ctx) {
+	fn := c.P.Func(compilePkg, "Funcode.decodeLNT")
+	if fn == nil {
+		c.anchorFail("(*compile.Funcode).decodeLNT not found")
+		return
+	}
+	// the slice field of Funcode that decodeLNT stores into
+	var elem types.Type
+	var at token.Pos
+	eachInstr(fn, func(in ssa.Instruction) {
+		st, ok := in.(*ssa.Store)
+		if !ok {
+			return
+		}
+		fa, ok := st.Addr.(*ssa.FieldAddr)
+		if !ok {
+			return
+		}
+		if _, tn := namedOf(fa.X.Type()); tn != "Funcode" {
+			return
+		}
+		if sl, ok := deref(fa.Type()).Underlying().(*types.Slice); ok {
+			elem = sl.Elem()
+			at = st.Pos()
+		}
+	})
+	key := "(*compile.Funcode).decodeLNT: row type"
+	if elem == nil {
+		c.anchorFail("decodeLNT stores no slice into the Funcode")
+		return
+	}
+	st, ok := elem.Underlying().(*types.Struct)
+	if !ok {
+		c.viol(key, c.P.Pos(at), fmt.Sprintf("the decoded line table holds %s values, not rows with separate line and column fields: positions are packed and therefore clamped", elem))
+		return
+	}
+	wide := 0
+	for i := 0; i < st.NumFields(); i++ {
+		if bt, ok := st.Field(i).Type().Underlying().(*types.Basic); ok && bt.Info()&types.IsInteger != 0 && c.P.sizes().Sizeof(bt) >= 4 {
+			wide++
+		}
+	}
+	if wide >= 3 {
+		c.ok(key, c.P.Pos(at), fmt.Sprintf("%d integer fields of 32 bits or more (pc, line, column)", wide))
+	} else {
+		c.viol(key, c.P.Pos(at), fmt.Sprintf("a decoded row has only %d integer field(s) of 32 bits or more: line and column share a word or are narrowed, so large columns (or line numbers) are clamped when an error position is computed", wide))
+	}
+}
+
+// ---------- A13: after the star every parameter has a slot in the defaults tuple ----------
+
+func init() {
+	register("A13", "after `*` every parameter has a slot in the defaults tuple: in the compiler's function(), the emission of the MANDATORY placeholder for a parameter without default depends on one flag only, and that flag is false initially and set to the constant true in the arm that sees a `*`/`*args`/`**kwargs` parameter - never to a computed value. The interpreter indexes the tuple by parameter position from the first optional parameter on, so a placeholder omitted 'because no positional default precedes the star' shifts every later default by one: def f(a, *, c=\"dc\", e) binds e to c's default", 1, ruleA13)
+	claim("C08", "A13")
+}
+
+func ruleA13(c *Ctx) {
+	oi := opcodes(c)
+	fn := c.P.Func(compilePkg, "fcomp.function")
+	if oi == nil || fn == nil {
+		c.anchorFail("compile.(*fcomp).function or the opcode table not found")
+		return
+	}
+	mand, ok := oi.byName["MANDATORY"]
+	if !ok {
+		c.anchorFail("opcode MANDATORY not found")
+		return
+	}
+	n := 0
+	// the loop over the parameters may have been moved into a helper (paramDefaults): every emission of
+	// MANDATORY in the package is judged in the function it stands in
+	var hosts []*ssa.Function
+	for _, g := range c.P.Funcs {
+		if fnPkgPath(g) == modPath+"/"+compilePkg {
+			hosts = append(hosts, g)
+		}
+	}
+	sortFuncs(hosts)
+	for _, host := range hosts {
+		eachInstr(host, func(in ssa.Instruction) {
+			call, ok := in.(*ssa.Call)
+			if !ok || call.Call.StaticCallee() == nil || len(call.Call.Args) < 2 {
+				return
+			}
+			k, isK := constInt(call.Call.Args[1])
+			if !isK || k != mand || !strings.HasSuffix(call.Call.Args[1].Type().String(), "compile.Opcode") {
+				return
+			}
+			n++
+			key := fmt.Sprintf("%s: MANDATORY placeholder #%d", fnName(host), n)
+			pos := c.P.Pos(call.Pos())
+			// the boolean flags this emission depends on (conditions that are not type tests of the parameter)
+			var flags []ssa.Value
+			for _, f := range pathFacts(call.Block()) {
+				if !f.Truth {
+					continue
+				}
+				switch x := f.Cond.(type) {
+				case *ssa.Phi:
+					flags = append(flags, x)
+				case *ssa.UnOp:
+					if x.Op == token.MUL {
+						flags = append(flags, x)
+					}
+				}
+			}
+			if len(flags) == 0 {
+				c.viol(key, pos, "the placeholder is not guarded by a 'star seen' flag: it is emitted for parameters before the star as well (or the guard is not a plain flag)")
+				return
+			}
+			bad := ""
+			for _, fl := range flags {
+				seen := map[ssa.Value]bool{}
+				var walk func(v ssa.Value)
+				walk = func(v ssa.Value) {
+					if seen[v] {
+						return
+					}
+					seen[v] = true
+					switch x := v.(type) {
+					case *ssa.Phi:
+						for _, e := range x.Edges {
+							walk(e)
+						}
+					case *ssa.Const:
+					case *ssa.UnOp:
+						// a flag kept in a variable cell: every value stored into it
+						if al, ok := x.X.(*ssa.Alloc); ok && x.Op == token.MUL {
+							if refs := al.Referrers(); refs != nil {
+								for _, r := range *refs {
+									if st, ok := r.(*ssa.Store); ok && st.Addr == ssa.Value(al) {
+										walk(st.Val)
+									}
+								}
+							}
+							return
+						}
+						bad = "a value loaded from elsewhere"
+					default:
+						bad = fmt.Sprintf("a computed value (%s)", strings.TrimPrefix(fmt.Sprintf("%T", v), "*ssa."))
+					}
+				}
+				walk(fl)
+			}
+			if bad == "" {
+				c.ok(key, pos, "guarded by a flag that only ever holds the constants false and true")
+			} else {
+				c.viol(key, pos, "the flag deciding whether a parameter after the star gets its MANDATORY slot is "+bad+", not a constant set when the star is seen: for some signatures a slot is omitted and every later default is bound to the wrong parameter")
+			}
+		})
+	}
+	if n == 0 {
+		c.anchorFail("no emission of MANDATORY found in package compile")
+	}
 }
